@@ -59,7 +59,7 @@ Lemma step_has_shape s i p : step_shape s (step' s i p) i.
 Proof.
   unfold step.
   destruct (r_end s) eqn:E; try (apply sh_same; [reflexivity | rewrite E; discriminate]).
-  destruct (rs_update requires_met (r_rs s) (p_directives p)) as [rs'|e|q] eqn:U.
+  destruct (part_update requires_met (r_rs s) p) as [rs'|e|q] eqn:U.
   - destruct (rs_skips rs' || negb (has_any_code p)) eqn:SK.
     + apply sh_skip; try reflexivity; exact E.
     + destruct (negb (r_did_import s) && negb (c_import_ok cfg)) eqn:IM.
@@ -137,7 +137,7 @@ Lemma step_import_failed s i p :
   r_end s = E_running -> r_end (step' s i p) = E_import_return -> r_failed (step' s i p) <> None.
 Proof.
   intros E. unfold step. rewrite E.
-  destruct (rs_update requires_met (r_rs s) (p_directives p)) as [rs'|e|q]; simpl.
+  destruct (part_update requires_met (r_rs s) p) as [rs'|e|q]; simpl.
   - destruct (rs_skips rs' || negb (has_any_code p)); [simpl; discriminate|].
     destruct (negb (r_did_import s) && negb (c_import_ok cfg)); [simpl; discriminate|].
     intros H; exfalso; revert H.
